@@ -162,17 +162,8 @@ func (p *c12Toks) hex() string {
 	return string(b)
 }
 
-func c12Parse(f []string) (*c12Case, bool) {
-	p := &c12Toks{t: f}
-	c := &c12Case{}
-	c.format = p.next()
-	c.style = p.int()
-	c.e = p.int()
-	c.indel = p.int() == 1
-	k := p.int()
-	if p.bad || k < 0 || k > 16 || (c.format != "o" && c.format != "c") {
-		return nil, false
-	}
+// c12ParseMarkers reads K marker descriptions
+func c12ParseMarkers(p *c12Toks, c *c12Case, k int) bool {
 	for i := 0; i < k; i++ {
 		var m c12Marker
 		m.fp, m.rp = p.hex(), p.hex()
@@ -184,12 +175,29 @@ func c12Parse(f []string) (*c12Case, bool) {
 		m.fpi, m.rpi = p.int() == 1, p.int() == 1
 		ns := p.int()
 		if p.bad || ns < 0 || ns > 64 || (m.mode != "s" && m.mode != "h" && m.mode != "i") {
-			return nil, false
+			return false
 		}
 		for j := 0; j < ns; j++ {
 			m.samples = append(m.samples, c12Sample{p.hex(), p.hex(), p.hex(), p.hex(), p.hex()})
 		}
 		c.markers = append(c.markers, m)
+	}
+	return true
+}
+
+func c12Parse(f []string) (*c12Case, bool) {
+	p := &c12Toks{t: f}
+	c := &c12Case{}
+	c.format = p.next()
+	c.style = p.int()
+	c.e = p.int()
+	c.indel = p.int() == 1
+	k := p.int()
+	if p.bad || k < 0 || k > 16 || (c.format != "o" && c.format != "c") {
+		return nil, false
+	}
+	if !c12ParseMarkers(p, c, k) {
+		return nil, false
 	}
 	c.id = p.hex()
 	c.seq = []byte(p.hex())
@@ -519,6 +527,27 @@ func c12HitList(p obiapat.ApatPattern, aseq obiapat.ApatSequence, begin int) (st
 	return b.String(), locs
 }
 
+// c12GateTie: the model of the gated searches (`gateList`: the hits of the complemented partner that START after the first hit
+// of the primer) against the real call AllMatches(aseq, begin, -1).  Stated for mismatch-only patterns (with indels an alignment
+// of the truncated read may start at `begin` where the whole read has a longer alignment starting before: counted, not required).
+func c12GateTie(p obiapat.ApatPattern, aseq obiapat.ApatSequence, begin int, gated [][3]int, indels bool, bad *string) {
+	var want [][3]int
+	for _, l := range p.AllMatches(aseq, 0, -1) {
+		if l[0] >= begin {
+			want = append(want, l)
+		}
+	}
+	if fmt.Sprint(want) == fmt.Sprint(gated) {
+		stat("demux.gate-is-filter")
+		return
+	}
+	if indels {
+		stat("demux.gate-differs-indel-pattern")
+		return
+	}
+	*bad = fmt.Sprintf("search from %d returned %v, the hits of the whole read starting there are %v", begin, gated, want)
+}
+
 func (c12) execDemux(f []string) (string, []Fail) {
 	c, ok := c12Parse(f)
 	if !ok {
@@ -610,6 +639,7 @@ func (c12) execDemux(f []string) (string, []Fail) {
 	delete(built, "")
 	foreign := false // a hit that is not a built primer instance
 	hits := " hits"
+	gateBad := ""
 	nhits := 0 // hits of the four patterns of every marker over the whole read (both strands): every built site gives one
 	hst := guardT(10*time.Second, func() string {
 		seq := obiseq.NewBioSequence(c.id, append([]byte{}, c.seq...), "")
@@ -625,16 +655,18 @@ func (c12) execDemux(f []string) (string, []Fail) {
 			if len(locs) > 0 {
 				begin = locs[0][0] + 1
 			}
-			s, _ = c12HitList(pcr, aseq, begin)
+			s, gated := c12HitList(pcr, aseq, begin)
 			hits += s
+			c12GateTie(pcr, aseq, begin, gated, mk.Forward_allows_indels || mk.Reverse_allows_indels, &gateBad)
 			s, locs = c12HitList(pr, aseq, 0)
 			hits += s
 			begin = 0
 			if len(locs) > 0 {
 				begin = locs[0][0] + 1
 			}
-			s, _ = c12HitList(pcf, aseq, begin)
+			s, gated = c12HitList(pcf, aseq, begin)
 			hits += s
+			c12GateTie(pcf, aseq, begin, gated, mk.Forward_allows_indels || mk.Reverse_allows_indels, &gateBad)
 			for k, pat := range []obiapat.ApatPattern{pf, pcf, pr, pcr} {
 				for _, l := range pat.AllMatches(aseq, 0, -1) {
 					nhits++
@@ -658,6 +690,10 @@ func (c12) execDemux(f []string) (string, []Fail) {
 		hits = " hits" + strings.Repeat(" 0 0 0 0", len(c.markers))
 	}
 	caseOverride = c.line() + hits
+	if gateBad != "" {
+		// tie of `gate` (Lemmas/DemuxSym.lean): a search started at position p returns the hits of the whole read that start at p or after
+		fails = append(fails, Fail{"tie.gated-call", gateBad})
+	}
 
 	run := func(seq []byte, viaWorker bool) (recs []c12Rec, res string) {
 		res = guardT(10*time.Second, func() string {
@@ -909,6 +945,8 @@ func (p c12) Exec(cl string) (string, []Fail) {
 		return p.execDemux(f[1:])
 	case "sheet":
 		return p.execSheet(f[1:])
+	case "multi":
+		return p.execMulti(f[1:])
 	}
 	return "bad-op", nil
 }
@@ -1910,6 +1948,8 @@ func (c12) Gen(rng *rand.Rand, tier string, emit func(string)) {
 			emit(c.line())
 		}
 	}
+	// histories of reads on one library object + the whole obimultiplex stage (c12_multi.go)
+	c12GenMulti(rng, tier, emit)
 	// the sample sheets last: every call of ReadNGSFilter registers one more copy of the CSV detector in the mimetype tree
 	// (OBIMimeNGSFilterTypeGuesser), which makes the later readings of old-format sheets slower and slower
 	for i := 0; i < nsheet; i++ {
